@@ -257,12 +257,15 @@ def _o2(res):
     return {"re": dec.enc(res[0]), "im": dec.enc(res[1])}
 
 
-def _d2o_event(idv, mol, lam, d, v, molecule=None, table=None):
+def _d2o_event(idv, mol, lam, d, v, molecule=None, table=None, energy=None):
     """mol: labile Formula with density."""
     import periodictable as P
     from periodictable import nsf
     kw = {"wavelength": lam} if lam is not None else {}
     L = lam if lam is not None else 1.798
+    if energy is not None:
+        kw = {"energy": energy}
+        L = float(nsf.neutron_wavelength(energy))
     ev = {"ev": "d2o", "id": idv, "ps": parts_of(mol), "rho": dec.to_dec(mol.density), "lam": dec.to_dec(L),
           "d": dec.to_dec(d), "v": dec.to_dec(v)}
     t = table if table is not None else P.elements
@@ -300,7 +303,7 @@ def _d2o(t, T):
         # fasta.Molecule takes the NATURAL density; give both the same thing
         mol = fasta.Molecule("m", g, density=g.natural_density)
     try:
-        return [_d2o_event(t["id"], g, t.get("wavelength"), t["d"], t["v"], molecule=mol)]
+        return [_d2o_event(t["id"], g, t.get("wavelength"), t["d"], t["v"], molecule=mol, energy=t.get("energy"))]
     except Exception as e:
         return [{"ev": "d2o", "id": t["id"], "exc": "%s: %s" % (type(e).__name__, str(e)[:100])}]
 
